@@ -46,6 +46,7 @@ pub fn configure(prop: &str, inst: &str, cfg: &mut Config) {
     match prop {
         "C13" => c13::configure(inst, cfg),
         "C10" => c10::configure(inst, cfg),
+        "C08" | "C09" => { cfg.decide_timeout_ms = cfg.decide_timeout_ms.min(1500); }
         _ => {}
     }
 }
